@@ -44,6 +44,7 @@ class PoolScenario(Scenario):
     wires = ["json", "jsonstr", "file", "pickle"]
     boxes = ["dict", "frame", "rec"]
     factors_odd = 0.15
+    fill_reloaded_too = False
     odd_row_weights = 0.0  # share of negative / NaN entries in the weight arrays of fill.numpy (fill ignores such weights)
     spec_opts = {}
     record_opts = {"no_none": True, "numeric_cuts": False}
@@ -81,7 +82,9 @@ class PoolScenario(Scenario):
             k = s.randrange(len(specs))
             st.update(spec=k, out=ab.new(k, True, "ctor"))
         elif op == "fill":
-            h = s.pick(ab.handles(mut=True))
+            # (fill_reloaded_too: an object that adopted bins from a reloaded operand, or a reload itself, is tried as well -
+            # the fill may legitimately raise "immutable container", but what it changes is still watched)
+            h = s.pick(ab.handles() if (self.fill_reloaded_too and s.chance(0.25)) else ab.handles(mut=True))
             st.update(obj=h, rec=s.randrange(len(recs)), w=specmod.enc_float(self.pick_weight(s)))
         elif op == "fillnumpy":
             # a tree without any quantity cannot learn the number of rows: fill.numpy is undefined for it
@@ -107,7 +110,9 @@ class PoolScenario(Scenario):
             r = s.pick(cands)
             st.update(l=l, r=r)
             if op == "add":
-                st["out"] = ab.new(ab.objs[l]["k"], ab.objs[l]["mut"] and ab.objs[r]["mut"], "add")
+                # (the sum keeps the left operand's templates: with fill_reloaded_too it counts as fillable even if the right
+                # operand was a reload - fills into bins adopted from it may raise, which that scenario tolerates)
+                st["out"] = ab.new(ab.objs[l]["k"], ab.objs[l]["mut"] and (ab.objs[r]["mut"] or self.fill_reloaded_too), "add")
             else:
                 # bins adopted from an immutable (reloaded) operand cannot be filled afterwards
                 ab.objs[l]["mut"] = ab.objs[l]["mut"] and ab.objs[r]["mut"]
